@@ -46,9 +46,10 @@ Inductive case :=
 | CRun (md : mode) (a : arg) (pfx : bstr) (svc : list (name * (N * N))) (unmfail : list N)
        (jt : list (N * N * (N * bool))) (o : obs)
 | CJoin (a b r : bstr)        (* path.Join(a, b) = r of the Go library (ties path_join2 and go_join) *)
-| CJoinRow (alpha : list N) (swap : bool) (a : bstr) (n : nat) (codes : list N)
-       (* exhaustive sweep: for the prefix a and EVERY name b over the alphabet alpha of length <= n, in the
-          order of [upto alpha n] (swap: a is the NAME and b runs over the prefixes), the Go library's
+| CJoinRow (alpha : list N) (swap : bool) (a h : bstr) (n : nat) (codes : list N)
+       (* exhaustive sweep: for the prefix a and EVERY name b = h ++ w, w over the alphabet alpha of length
+          <= n in the order of [upto alpha n] (swap: a is the NAME and b runs over the prefixes; the head h
+          only serves to cut long rows into pieces), the Go library's
           path.Join(prefix, name), each result written as one number
           (digits = 1 + index of the byte in alpha, base |alpha|+1; 0 = a byte outside alpha) *)
 | CDomain (what : N).         (* inputs outside the property's domain, recorded only *)
@@ -69,9 +70,9 @@ Definition code_of (alpha : list N) (s : bstr) : N :=
   fold_left (fun acc c => (acc * base + idx_in c alpha 1)%N) s 0%N.
 
 (* both forms of the path model must give the library's answer *)
-Definition join_row_ok (alpha : list N) (swap : bool) (a : bstr) (n : nat) (codes : list N) : bool :=
+Definition join_row_ok (alpha : list N) (swap : bool) (a h : bstr) (n : nat) (codes : list N) : bool :=
   let others := upto alpha n in
-  let pair b := if swap then (b, a) else (a, b) in
+  let pair w := if swap then (h ++ w, a) else (a, h ++ w) in
   list_beq N.eqb (map (fun b => let '(x, y) := pair b in code_of alpha (path_join2 x y)) others) codes
   && list_beq N.eqb (map (fun b => let '(x, y) := pair b in code_of alpha (go_join [x; y])) others) codes.
 
@@ -187,6 +188,6 @@ Definition check (c : case) : bool :=
   match c with
   | CRun md a pfx svc unmfail jt o => check_run md a pfx svc unmfail jt o
   | CJoin a b r => bytes_beq (path_join2 a b) r && bytes_beq (go_join [a; b]) r
-  | CJoinRow alpha swap a n codes => join_row_ok alpha swap a n codes
+  | CJoinRow alpha swap a h n codes => join_row_ok alpha swap a h n codes
   | CDomain _ => true
   end.
